@@ -44,6 +44,27 @@ pub fn model() {
     }
 }
 
+/// Integer lemma that ties the documented formula to the hardware model: for
+/// an edge at true tick `T` and the two markers the hardware wrote around it,
+/// the consistency conditions hold and `ts + ((c+1)/2) * 2^24` is the true
+/// tick. (`soundness` ties the code to that formula for ALL inputs.)
+pub fn model_lemma() {
+    let t = sym::u64();
+    sym::assume(t >= HALF && t < 16 * HALF);
+    let c = (t / HALF - 1) as u32;
+    let (prev, next) = (marker(c), marker(c + 1));
+    let e = edge(0, t);
+    let ts24 = e.timestamp();
+    witness!(c == 14, "last-half-wrap");
+    check!(ts24 as u64 == (t % WRAP) & !1, "C20:lemma:fifo-word-carries-T-mod-2^24");
+    let consistent = prev.wrap_around_counter() + 1 == next.wrap_around_counter()
+        && prev.timestamp_top_bit != next.timestamp_top_bit
+        && ((ts24 >> 23) == 1) != prev.timestamp_top_bit;
+    check!(consistent, "C20:lemma:hardware-markers-are-consistent");
+    let ticks = ts24 as u64 + ((prev.wrap_around_counter() as u64 + 1) / 2) * WRAP;
+    check!(ticks == t & !1, "C20:lemma:formula-is-true-tick");
+}
+
 /// Same with the marker counter fixed (`C`): every edge of that half wrap.
 pub fn model_fixed<const C: u32>() {
     let low = sym::u32();
@@ -128,59 +149,74 @@ pub fn displacement() {
 
 // ---- row loop --------------------------------------------------------------
 
-#[derive(Clone, Copy)]
-enum Spec {
-    T { ch: u8, ts: u32, trailing: bool },
-    M { top: bool, counter: u32 },
+/// Stand-in for `chronobox_time` while the ROW LOOP is decided (`#[kani::stub]`,
+/// row-loop instances only): an injective, float-free encoding of its three
+/// arguments (24-bit timestamp, and per marker: presence, top bit, low 11
+/// counter bits) in the mantissa of an f64 in [1, 2). The loop never inspects
+/// the value, so the time column must equal the encoding of the right entry
+/// with the right pair of markers. The kernel itself is decided by `soundness`
+/// and `model_lemma`.
+pub fn chronobox_time_stub(
+    tsc: TimestampCounter,
+    previous_marker: Option<WrapAroundMarker>,
+    next_marker: Option<WrapAroundMarker>,
+) -> Option<uom::si::f64::Time> {
+    fn enc(m: Option<WrapAroundMarker>) -> u64 {
+        match m {
+            Some(m) => 1 | (m.timestamp_top_bit as u64) << 1 | ((m.wrap_around_counter() as u64) & 0x7FF) << 2,
+            None => 0,
+        }
+    }
+    let code = tsc.timestamp() as u64 | enc(previous_marker) << 24 | enc(next_marker) << 37;
+    Some(uom::si::f64::Time {
+        dimension: core::marker::PhantomData,
+        units: core::marker::PhantomData,
+        value: f64::from_bits(0x3FF0_0000_0000_0000 | code),
+    })
 }
 
-fn spec_time(ts: u32, prev: Option<(bool, u32)>, next: Option<(bool, u32)>) -> Option<u64> {
-    match (prev, next) {
-        (Some((pt, pc)), Some((nt, nc))) if pc + 1 == nc && pt != nt && ((ts >> 23) == 1) != pt => {
-            Some(ts as u64 + ((pc as u64 + 1) / 2) * WRAP)
-        }
-        _ => None,
-    }
+#[derive(Clone, Copy)]
+enum Spec {
+    T(TimestampCounter, u8, bool),
+    M(WrapAroundMarker),
 }
 
 /// `main()`'s row loop on a FIFO of `N` entries that starts (as `main` has
 /// ensured) with the counter-0 marker; entries 1.. are arbitrary timestamps and
-/// markers. One row per timestamp, in order, right channel/edge, and the time
-/// column filled exactly as the enclosing markers dictate.
+/// markers. One row per timestamp, in stream order, right channel/edge, and
+/// the time column is what the (separately decided) kernel gives for the
+/// nearest marker before and the nearest marker after the timestamp.
 pub fn row_loop<const N: usize>() {
-    let mut spec = [Spec::M { top: false, counter: 0 }; N];
+    let m0 = WrapAroundMarker::verif_new(false, 0);
+    let mut spec = [Spec::M(m0); N];
     let mut fifo: Vec<FifoEntry> = Vec::with_capacity(N);
-    fifo.push(FifoEntry::WrapAroundMarker(WrapAroundMarker::verif_new(false, 0)));
+    fifo.push(FifoEntry::WrapAroundMarker(m0));
     let mut i = 1;
     while i < N {
         if sym::bool() {
-            let (top, counter) = (sym::bool(), sym::u32() & 0x7F_FFFF);
-            spec[i] = Spec::M { top, counter };
-            fifo.push(FifoEntry::WrapAroundMarker(WrapAroundMarker::verif_new(top, counter)));
+            let m = WrapAroundMarker::verif_new(sym::bool(), sym::u32());
+            spec[i] = Spec::M(m);
+            fifo.push(FifoEntry::WrapAroundMarker(m));
         } else {
-            let (ch, ts, trailing) = (sym::u8() % 59, sym::u32() & 0xFF_FFFE, sym::bool());
-            spec[i] = Spec::T { ch, ts, trailing };
-            fifo.push(FifoEntry::TimestampCounter(
-                TimestampCounter::verif_new(ch, ts, trailing).unwrap(),
-            ));
+            let (ch, trailing) = (sym::u8() % 59, sym::bool());
+            let t = TimestampCounter::verif_new(ch, sym::u32(), trailing).unwrap();
+            spec[i] = Spec::T(t, ch, trailing);
+            fifo.push(FifoEntry::TimestampCounter(t));
         }
         i += 1;
     }
     let out = rows(vec![(String::new(), fifo)]);
-    // reference rows
-    let mut k = 0usize; // next row expected
-    let mut count_ok = true;
-    let mut fields_ok = true;
-    let mut time_ok = true;
+    // expected rows, in a local array (rows are then compared at concrete indices)
+    let mut exp = [(0u8, false, None::<u64>); N];
+    let mut k = 0usize;
     let mut i = 1;
     while i < N {
-        if let Spec::T { ch, ts, trailing } = spec[i] {
-            // nearest markers around entry i
+        if let Spec::T(tsc, ch, trailing) = spec[i] {
             let mut prev = None;
             let mut j = 0;
             while j < i {
-                if let Spec::M { top, counter } = spec[j] {
-                    prev = Some((top, counter));
+                if let Spec::M(m) = spec[j] {
+                    prev = Some(m);
                 }
                 j += 1;
             }
@@ -188,26 +224,55 @@ pub fn row_loop<const N: usize>() {
             let mut j = N;
             while j > i + 1 {
                 j -= 1;
-                if let Spec::M { top, counter } = spec[j] {
-                    next = Some((top, counter));
+                if let Spec::M(m) = spec[j] {
+                    next = Some(m);
                 }
             }
-            if k < out.len() {
-                let r = &out[k];
-                fields_ok &= r.channel == ch && r.leading_edge == !trailing && r.board.is_empty();
-                let want = spec_time(ts, prev, next).map(|t| ((t as f64) / FREQ).to_bits());
-                time_ok &= r.chronobox_time.map(|x| x.to_bits()) == want;
-            } else {
-                count_ok = false;
-            }
+            #[cfg(kani)]
+            let want = chronobox_time_stub(tsc, prev, next).map(|t| t.get::<second>().to_bits());
+            #[cfg(not(kani))]
+            let want = chronobox_time(tsc, prev, next).map(|t| t.get::<second>().to_bits());
+            exp[k] = (ch, trailing, want);
             k += 1;
         }
         i += 1;
     }
     witness!(k == N - 1, "all-timestamps");
-    witness!(k >= 1 && out.len() >= 1 && out[0].chronobox_time.is_some(), "a-row-with-a-time");
-    check!(count_ok && out.len() == k, "C20:rows:one-row-per-timestamp");
+    witness!(k >= 1 && out.n >= 1, "a-row");
+    check!(out.n == k, "C20:rows:one-row-per-timestamp");
+    let mut fields_ok = true;
+    let mut time_ok = true;
+    let mut r = 0;
+    while r + 1 < N {
+        if r < k && r < out.n {
+            let row = &out.rows[r];
+            fields_ok &= row.channel == exp[r].0 && row.leading_edge == !exp[r].1 && row.board.is_empty();
+            time_ok &= row.chronobox_time.map(|x| x.to_bits()) == exp[r].2;
+        }
+        r += 1;
+    }
     check!(fields_ok, "C20:rows:channel-edge-in-stream-order");
     check!(time_ok, "C20:rows:time-column");
     std::mem::forget(out);
 }
+
+// ---- debugging probes (not scheduled) --------------------------------------
+pub fn dbg_rows_only<const N: usize>() {
+    let mut fifo: Vec<FifoEntry> = Vec::with_capacity(N);
+    fifo.push(FifoEntry::WrapAroundMarker(WrapAroundMarker::verif_new(false, 0)));
+    let mut i = 1;
+    while i < N {
+        if sym::bool() {
+            fifo.push(FifoEntry::WrapAroundMarker(WrapAroundMarker::verif_new(sym::bool(), sym::u32())));
+        } else {
+            fifo.push(FifoEntry::TimestampCounter(
+                TimestampCounter::verif_new(sym::u8() % 59, sym::u32(), sym::bool()).unwrap(),
+            ));
+        }
+        i += 1;
+    }
+    let out = rows(vec![(String::new(), fifo)]);
+    check!(out.n <= N, "dbg");
+    std::mem::forget(out);
+}
+
